@@ -312,7 +312,7 @@ def run(prop, tier, seed, t0):
                 totals[k] |= v
             else:
                 totals[k] = totals.get(k, 0) + v
-    if totals["programs"] < 2 * 300 or totals["ui_cases"] != 13:
+    if not violations and (totals["programs"] < 2 * 300 or totals["ui_cases"] != 13):
         raise Machinery("vacuity guard: C12 explored too little: %s" % {k: v for k, v in totals.items() if k != "codes"})
     merged = {}
     for v in violations:
